@@ -82,6 +82,31 @@ theorem on_wstep {A : Prop} {w w' : World} {k : Which} {f : SW → Except Err SW
   cases h2
   exact put_good (hf sw' h1)
 
+/-- A step of an operation that creates no stream: additionally, which objects are streams does
+not change at all (new objects are placeholders). -/
+structure WStepR (A : Prop) (w w' : World) : Prop extends WStep A w w' where
+  real : w'.real = w.real
+
+theorem WStepR.refl (w : World) : WStepR True w w := ⟨WStep.refl w, rfl⟩
+
+theorem WStepR.weaken {A B : Prop} {a b : World} (h1 : WStepR A a b) (h : B → GoodS a → A) :
+    WStepR B a b := ⟨h1.toWStep.weaken h, h1.real⟩
+
+theorem WStepR.trans {A B C : Prop} {a b c : World} (h1 : WStepR A a b) (h2 : WStepR B b c)
+    (hA : C → GoodS a → A) (hB : C → GoodS a → GoodS b → B) : WStepR C a c :=
+  ⟨h1.toWStep.trans h2.toWStep hA hB, h2.real.trans h1.real⟩
+
+theorem put_goodR {A : Prop} {w : World} {k : Which} {sw' : SW} (h : Step w.nU A (w.get k) sw') :
+    WStepR A w (w.put k sw') := ⟨put_good h, by cases k <;> rfl⟩
+
+theorem on_wstepR {A : Prop} {w w' : World} {k : Which} {f : SW → Except Err SW}
+    (hf : ∀ sw', f (w.get k) = .ok sw' → Step w.nU A (w.get k) sw') (h : w.on k f = .ok w') :
+    WStepR A w w' := by
+  unfold World.on at h
+  obtain ⟨sw', h1, h2⟩ := bind_ok.mp h
+  cases h2
+  exact put_goodR (hf sw' h1)
+
 /-! ## Small composite list operations -/
 
 theorem replaceNone_step {nU : Nat} {w w' : SW} {u s : Nat}
@@ -144,92 +169,82 @@ theorem newStream_wstep (w : World) : WStep True w w.newStream.1 := by
   simp only [World.newStream, h2, if_false]; exact this
 
 theorem disconnectStream_wstep {w w' : World} {s : Nat} (h : w.disconnectStream s = .ok w') :
-    WStep True w w' := by
+    WStepR True w w' := by
   unfold World.disconnectStream at h
   obtain ⟨w1, h1, h⟩ := bind_ok.mp h
-  exact (on_wstep (fun _ => disconnect_step) h1).trans (on_wstep (fun _ => disconnect_step) h)
+  exact (on_wstepR (fun _ => disconnect_step) h1).trans (on_wstepR (fun _ => disconnect_step) h)
     (fun _ _ => trivial) (fun _ _ _ => trivial)
 
 theorem takePlaceOf_wstep {w w' : World} {u o : Nat} (h : w.takePlaceOf u o = .ok w') :
-    WStep (u < w.nU) w w' := by
+    WStepR (u < w.nU) w w' := by
   unfold World.takePlaceOf at h
   obtain ⟨w1, h1, h⟩ := bind_ok.mp h
-  have s1 := on_wstep (fun _ => setStreams_step) h1
-  have s2 := on_wstep (fun _ => setStreams_step) h
+  have s1 := on_wstepR (fun _ => setStreams_step) h1
+  have s2 := on_wstepR (fun _ => setStreams_step) h
   exact s1.trans s2
     (fun hu hG => ⟨items_map_some (fun s hs => hG.ins_lt hs), hu⟩)
     (fun hu _ hG1 => ⟨items_map_some (fun s hs => hG1.outs_lt hs), Nat.lt_of_lt_of_le hu s1.ext.nU⟩)
 
-theorem reconnect_half {w w' : World} {k : Which} {p : Option (Nat × Nat)} {s : Nat}
-    (h : (match p with
-      | some (u, i) => w.on k (·.setStream u i s)
-      | none => w.on k (·.disconnect s)) = Except.ok w') :
-    WStep (s < w.nS ∧ (∀ q, p = some q → q.1 < w.nU)) w w' := by
+theorem reconnect_half {w w' : World} {k : Which} {p : Option (Nat × Nat)} {b : Bool} {s : Nat}
+    (h : w.reconHalf k p b s = .ok w') :
+    WStepR (s < w.nS ∧ (∀ q, p = some q → q.1 < w.nU)) w w' := by
+  unfold World.reconHalf at h
   cases p with
-  | none => exact (on_wstep (fun _ => disconnect_step) h).weaken (fun _ _ => trivial)
+  | none => exact (on_wstepR (fun _ => disconnect_step) h).weaken (fun _ _ => trivial)
   | some q =>
     obtain ⟨u, i⟩ := q
-    exact (on_wstep (fun _ => setStream_step) h).weaken (fun hc _ => ⟨by simpa using hc.1, hc.2 _ rfl⟩)
+    simp only at h
+    split at h
+    · cases h; exact (WStepR.refl _).weaken (fun _ _ => trivial)
+    · exact (on_wstepR (fun _ => setStream_step) h).weaken (fun hc _ => ⟨by simpa using hc.1, hc.2 _ rfl⟩)
 
 theorem reconnect_wstep {w w' : World} {src snk : Option (Nat × Nat)} {s : Nat}
     (h : w.reconnect src s snk = .ok w') :
-    WStep (s < w.nS ∧ (∀ p, src = some p → p.1 < w.nU) ∧ (∀ p, snk = some p → p.1 < w.nU)) w w' := by
+    WStepR (s < w.nS ∧ (∀ p, src = some p → p.1 < w.nU) ∧ (∀ p, snk = some p → p.1 < w.nU)) w w' := by
   unfold World.reconnect at h
-  have key : ∀ w1, WStep (s < w.nS ∧ (∀ p, src = some p → p.1 < w.nU)) w w1 →
-      (match snk with
-        | some (u, i) => w1.on .i (·.setStream u i s)
-        | none => w1.on .i (·.disconnect s)) = Except.ok w' →
-      WStep (s < w.nS ∧ (∀ p, src = some p → p.1 < w.nU) ∧ (∀ p, snk = some p → p.1 < w.nU)) w w' := by
-    intro w1 s1 h2
-    exact s1.trans (reconnect_half h2) (fun hc _ => ⟨hc.1, hc.2.1⟩)
-      (fun hc _ _ => ⟨Nat.lt_of_lt_of_le hc.1 s1.ext.nS,
-        fun p hp => Nat.lt_of_lt_of_le (hc.2.2 p hp) s1.ext.nU⟩)
-  cases src with
-  | none =>
-    obtain ⟨w1, h1, h⟩ := bind_ok.mp h
-    exact key w1 (reconnect_half (p := none) h1) h
-  | some q =>
-    obtain ⟨u, i⟩ := q
-    obtain ⟨w1, h1, h⟩ := bind_ok.mp h
-    exact key w1 (reconnect_half (p := some (u, i)) h1) h
+  obtain ⟨w1, h1, h⟩ := bind_ok.mp h
+  have s1 := reconnect_half h1
+  exact s1.trans (reconnect_half h) (fun hc _ => ⟨hc.1, hc.2.1⟩)
+    (fun hc _ _ => ⟨Nat.lt_of_lt_of_le hc.1 s1.ext.nS,
+      fun p hp => Nat.lt_of_lt_of_le (hc.2.2 p hp) s1.ext.nU⟩)
 
 theorem getElem?_mem' {l : List Nat} {i a : Nat} (h : l[i]? = some a) : a ∈ l :=
   List.mem_of_getElem? h
 
 theorem on_replace_wstep {w w' : World} {k : Which} {v a b : Nat}
-    (h : w.on k (·.replace v a b) = .ok w') : WStep (b < w.nS ∧ v < w.nU) w w' :=
-  (on_wstep (fun _ => replace_step) h).weaken (fun hc _ => ⟨by simpa using hc.1, hc.2⟩)
+    (h : w.on k (·.replace v a b) = .ok w') : WStepR (b < w.nS ∧ v < w.nU) w w' :=
+  (on_wstepR (fun _ => replace_step) h).weaken (fun hc _ => ⟨by simpa using hc.1, hc.2⟩)
 
 theorem insertUnit_wstep {w w' : World} {u s : Nat} {i o : Option PortRef}
     (h : w.insertUnit u s i o = .ok w') :
-    WStep (s < w.nS ∧ u < w.nU ∧ (∀ a, i = some (.strm a) → a < w.nS) ∧
+    WStepR (s < w.nS ∧ u < w.nU ∧ (∀ a, i = some (.strm a) → a < w.nS) ∧
       (∀ a, o = some (.strm a) → a < w.nS)) w w' := by
   unfold World.insertUnit at h
   extract_lets source sink replaceIn jp at h
   have hrep : ∀ (w : World) k v a b w', replaceIn w k v a b = .ok w' →
-      WStep (b < w.nS ∧ ∀ x, v = some x → x < w.nU) w w' := by
+      WStepR (b < w.nS ∧ ∀ x, v = some x → x < w.nU) w w' := by
     intro w k v a b w' hx
     dsimp only [replaceIn] at hx
     split at hx
     · exact (on_replace_wstep hx).weaken (fun hc _ => ⟨hc.1, hc.2 _ rfl⟩)
     · cases hx
   have htail : ∀ (w2 : World) (b : Bool) w', (if b = true then w2.on .o (·.append u s)
-      else Except.ok w2) = .ok w' → WStep (s < w2.nS ∧ u < w2.nU) w2 w' := by
+      else Except.ok w2) = .ok w' → WStepR (s < w2.nS ∧ u < w2.nU) w2 w' := by
     intro w2 b w' hx
     split at hx
-    · exact (on_wstep (fun _ => append_step) hx).weaken (fun hc _ => ⟨by simpa using hc.1, hc.2⟩)
-    · cases hx; exact (WStep.refl _).weaken (fun _ _ => trivial)
+    · exact (on_wstepR (fun _ => append_step) hx).weaken (fun hc _ => ⟨by simpa using hc.1, hc.2⟩)
+    · cases hx; exact (WStepR.refl _).weaken (fun _ _ => trivial)
   have comb : ∀ (x : World × Bool) (w2 w' : World),
-      WStep (s < x.1.nS ∧ u < x.1.nU ∧ (∀ v, source = some v → v < x.1.nU) ∧
+      WStepR (s < x.1.nS ∧ u < x.1.nU ∧ (∀ v, source = some v → v < x.1.nU) ∧
         (∀ a, i = some (.strm a) → a < x.1.nS)) x.1 w2 →
       (if x.2 = true then w2.on .o (·.append u s) else Except.ok w2) = .ok w' →
-      WStep (s < x.1.nS ∧ u < x.1.nU ∧ (∀ v, source = some v → v < x.1.nU) ∧
+      WStepR (s < x.1.nS ∧ u < x.1.nU ∧ (∀ v, source = some v → v < x.1.nU) ∧
         (∀ a, i = some (.strm a) → a < x.1.nS)) x.1 w' := by
     intro x w2 w' F ht
     exact F.trans (htail w2 x.2 w' ht) (fun hc _ => hc)
       (fun hc _ _ => ⟨Nat.lt_of_lt_of_le hc.1 F.ext.nS, Nat.lt_of_lt_of_le hc.2.1 F.ext.nU⟩)
   have hjp : ∀ x w', jp x = .ok w' →
-      WStep (s < x.1.nS ∧ u < x.1.nU ∧ (∀ v, source = some v → v < x.1.nU) ∧
+      WStepR (s < x.1.nS ∧ u < x.1.nU ∧ (∀ v, source = some v → v < x.1.nU) ∧
         (∀ a, i = some (.strm a) → a < x.1.nS)) x.1 w' := by
     intro x w' hx
     dsimp only [jp] at hx
@@ -244,7 +259,7 @@ theorem insertUnit_wstep {w w' : World} {u s : Nat} {i o : Option PortRef}
           · obtain ⟨w2, hx, ht⟩ := bind_ok.mp hx; cases hx
         · obtain ⟨w2, hx, ht⟩ := bind_ok.mp hx; cases hx
       · obtain ⟨w2, hx, ht⟩ := bind_ok.mp hx
-        exact comb x w2 w' ((on_wstep (fun _ => append_step) hx).weaken
+        exact comb x w2 w' ((on_wstepR (fun _ => append_step) hx).weaken
           (fun hc _ => ⟨by simpa using hc.1, hc.2.1⟩)) ht
     · split at hx
       · obtain ⟨w2, hx, ht⟩ := bind_ok.mp hx; cases hx
@@ -261,11 +276,11 @@ theorem insertUnit_wstep {w w' : World} {u s : Nat} {i o : Option PortRef}
       · obtain ⟨w2, hx, ht⟩ := bind_ok.mp hx; cases hx
   clear_value jp replaceIn
   -- common continuation
-  have fin : ∀ (w1 : World) (added : Bool) (A : Prop), WStep A w w1 →
+  have fin : ∀ (w1 : World) (added : Bool) (A : Prop), WStepR A w w1 →
       ((s < w.nS ∧ u < w.nU ∧ (∀ a, i = some (.strm a) → a < w.nS) ∧
         (∀ a, o = some (.strm a) → a < w.nS)) → GoodS w → A) →
       jp (w1, added) = .ok w' →
-      WStep (s < w.nS ∧ u < w.nU ∧ (∀ a, i = some (.strm a) → a < w.nS) ∧
+      WStepR (s < w.nS ∧ u < w.nU ∧ (∀ a, i = some (.strm a) → a < w.nS) ∧
         (∀ a, o = some (.strm a) → a < w.nS)) w w' := by
     intro w1 added A s1 hA h2
     exact s1.trans (hjp _ _ h2) hA (fun hc hG _ =>
@@ -282,7 +297,7 @@ theorem insertUnit_wstep {w w' : World} {u s : Nat} {i o : Option PortRef}
             (fun hc hG => ⟨hG.outs_lt (getElem?_mem' ho1), fun x hx => hG.ins_loc_lt hx⟩) h
         · cases h
       · cases h
-    · exact fin w true _ (WStep.refl w) (fun _ _ => trivial) h
+    · exact fin w true _ (WStepR.refl w) (fun _ _ => trivial) h
   · split at h
     · cases h
     · split at h
@@ -299,9 +314,9 @@ theorem insertUnit_wstep {w w' : World} {u s : Nat} {i o : Option PortRef}
 
 theorem replaceWithNone_go_wstep {w w' : World} {ps : List (Nat × Nat)}
     (h : World.replaceWithNone.go w ps = .ok w') :
-    WStep (∀ p ∈ ps, p.1 < w.nS ∧ p.2 < w.nS) w w' := by
+    WStepR (∀ p ∈ ps, p.1 < w.nS ∧ p.2 < w.nS) w w' := by
   induction ps generalizing w with
-  | nil => simp only [World.replaceWithNone.go] at h; cases h; exact (WStep.refl _).weaken (fun _ _ => trivial)
+  | nil => simp only [World.replaceWithNone.go] at h; cases h; exact (WStepR.refl _).weaken (fun _ _ => trivial)
   | cons p ps ih =>
     obtain ⟨a, b⟩ := p
     simp only [World.replaceWithNone.go] at h
@@ -325,36 +340,36 @@ theorem replaceWithNone_go_wstep {w w' : World} {ps : List (Nat × Nat)}
       · exact (ih h).weaken (fun hc _ => rest w (WExt.refl w) hc)
 
 theorem replaceWithNone_wstep {w w' : World} {u : Nat} (h : w.replaceWithNone u = .ok w') :
-    WStep (u < w.nU) w w' := by
+    WStepR (u < w.nU) w w' := by
   unfold World.replaceWithNone at h
   obtain ⟨w1, h1, h⟩ := bind_ok.mp h
   cases h
   have s1 := replaceWithNone_go_wstep h1
-  have s2 : WStep (u < w1.nU) w1 (w1.put .i ((w1.get .i).empty u)) := put_good (empty_step _ u)
-  have s3 : WStep (u < (w1.put .i ((w1.get .i).empty u)).nU) (w1.put .i ((w1.get .i).empty u))
+  have s2 : WStepR (u < w1.nU) w1 (w1.put .i ((w1.get .i).empty u)) := put_goodR (empty_step _ u)
+  have s3 : WStepR (u < (w1.put .i ((w1.get .i).empty u)).nU) (w1.put .i ((w1.get .i).empty u))
       ((w1.put .i ((w1.get .i).empty u)).put .o (((w1.put .i ((w1.get .i).empty u)).get .o).empty u)) :=
-    put_good (empty_step _ u)
+    put_goodR (empty_step _ u)
   have s23 := s2.trans s3 (C := u < w1.nU) (fun hc _ => hc) (fun hc _ _ => hc)
   refine s1.trans s23 (fun _ hG p hp => ?_) (fun hu _ _ => Nat.lt_of_lt_of_le hu s1.ext.nU)
   have h1 := (List.of_mem_zip hp)
   exact ⟨hG.ins_lt h1.1, hG.outs_lt h1.2⟩
 
 theorem setNonesOut_wstep {w w' : World} {u : Nat} {rs : List PortRef}
-    (h : w.setNonesOut u rs = .ok w') : WStep (u < w.nU) w w' := by
+    (h : w.setNonesOut u rs = .ok w') : WStepR (u < w.nU) w w' := by
   induction rs generalizing w with
-  | nil => simp only [World.setNonesOut] at h; cases h; exact (WStep.refl _).weaken (fun _ _ => trivial)
+  | nil => simp only [World.setNonesOut] at h; cases h; exact (WStepR.refl _).weaken (fun _ _ => trivial)
   | cons r rs ih =>
     simp only [World.setNonesOut] at h
     obtain ⟨i, _, h⟩ := bind_ok.mp h
     obtain ⟨w1, h1, h⟩ := bind_ok.mp h
-    have s1 : WStep (u < w.nU) w w1 := on_wstep (fun _ hx => setNone_step hx) h1
+    have s1 : WStepR (u < w.nU) w w1 := on_wstepR (fun _ hx => setNone_step hx) h1
     exact s1.trans (ih h) (fun hu _ => hu) (fun hu _ _ => Nat.lt_of_lt_of_le hu s1.ext.nU)
 
 theorem disconnectUnit_go_wstep {w w' : World} {ps : List (Option Nat × Option Nat)}
     (h : World.disconnectUnit.go w ps = .ok w') :
-    WStep (∀ p ∈ ps, (∀ a, p.1 = some a → a < w.nS) ∧ (∀ b, p.2 = some b → b < w.nS)) w w' := by
+    WStepR (∀ p ∈ ps, (∀ a, p.1 = some a → a < w.nS) ∧ (∀ b, p.2 = some b → b < w.nS)) w w' := by
   induction ps generalizing w with
-  | nil => simp only [World.disconnectUnit.go] at h; cases h; exact (WStep.refl _).weaken (fun _ _ => trivial)
+  | nil => simp only [World.disconnectUnit.go] at h; cases h; exact (WStepR.refl _).weaken (fun _ _ => trivial)
   | cons p ps ih =>
     obtain ⟨a, b⟩ := p
     have rest : ∀ w1, WExt w w1 →
@@ -396,14 +411,14 @@ theorem disconnectUnit_tail {j : Bool} {inS : List (Option Nat)} {y : World × L
         if inS.length ≠ y.snd.length then Except.error Err.valueError
         else World.disconnectUnit.go y.fst (inS.zip y.snd)
       else Except.ok y.fst) = Except.ok w') :
-    WStep ((∀ a, some a ∈ inS → a < y.1.nS) ∧ (∀ b, some b ∈ y.2 → b < y.1.nS)) y.1 w' := by
+    WStepR ((∀ a, some a ∈ inS → a < y.1.nS) ∧ (∀ b, some b ∈ y.2 → b < y.1.nS)) y.1 w' := by
   split at hy
   · split at hy
     · cases hy
     · refine (disconnectUnit_go_wstep hy).weaken (fun hc _ p hp => ?_)
       have := List.of_mem_zip hp
       exact ⟨fun a ha => hc.1 a (ha ▸ this.1), fun b hb => hc.2 b (hb ▸ this.2)⟩
-  · cases hy; exact (WStep.refl _).weaken (fun _ _ => trivial)
+  · cases hy; exact (WStepR.refl _).weaken (fun _ _ => trivial)
 
 theorem reals_lt {w : World} {l : List Nat} {n : Nat} (h : ∀ s ∈ l, s < n) :
     ∀ a, some a ∈ List.map some (w.reals l) → a < n :=
@@ -411,12 +426,12 @@ theorem reals_lt {w : World} {l : List Nat} {n : Nat} (h : ∀ s ∈ l, s < n) :
 
 theorem disconnectUnit_wstep {w w' : World} {u : Nat} {inl outl : Option (List PortRef)} {j : Bool}
     (h : w.disconnectUnit u inl outl j = .ok w') :
-    WStep (u < w.nU ∧ (∀ l, inl = some l → ∀ s, PortRef.strm s ∈ l → s < w.nS) ∧
+    WStepR (u < w.nU ∧ (∀ l, inl = some l → ∀ s, PortRef.strm s ∈ l → s < w.nS) ∧
       (∀ l, outl = some l → ∀ s, PortRef.strm s ∈ l → s < w.nS)) w w' := by
   unfold World.disconnectUnit at h
   extract_lets jp1 at h
   have hjp1 : ∀ x w', jp1 x = .ok w' →
-      WStep (u < x.1.nU ∧ (∀ a, some a ∈ x.2 → a < x.1.nS) ∧
+      WStepR (u < x.1.nU ∧ (∀ a, some a ∈ x.2 → a < x.1.nS) ∧
         (∀ l, outl = some l → ∀ s, PortRef.strm s ∈ l → s < x.1.nS)) x.1 w' := by
     intro x w' hx
     obtain ⟨w1, inS⟩ := x
@@ -425,7 +440,7 @@ theorem disconnectUnit_wstep {w w' : World} {u : Nat} {inl outl : Option (List P
     · obtain ⟨w2, h2, hx⟩ := bind_ok.mp hx
       obtain ⟨y, hy, hx⟩ := bind_ok.mp hx
       cases hy
-      have s2 := on_wstep (fun _ => setStreams_step) h2
+      have s2 := on_wstepR (fun _ => setStreams_step) h2
       refine s2.trans (disconnectUnit_tail hx) (fun hc _ => ⟨by simp, hc.1⟩) (fun hc hG _ => ⟨?_, ?_⟩)
       · intro a ha; exact Nat.lt_of_lt_of_le (hc.2.1 a ha) s2.ext.nS
       · intro b hb
@@ -445,7 +460,7 @@ theorem disconnectUnit_wstep {w w' : World} {u : Nat} {inl outl : Option (List P
   · obtain ⟨w1, h1, h⟩ := bind_ok.mp h
     obtain ⟨y, hy, h⟩ := bind_ok.mp h
     cases hy
-    have s1 := on_wstep (fun _ => setStreams_step) h1
+    have s1 := on_wstepR (fun _ => setStreams_step) h1
     refine s1.trans (hjp1 _ _ h) (fun hc _ => ⟨by simp, hc.1⟩) (fun hc hG _ => ⟨?_, ?_, ?_⟩)
     · exact Nat.lt_of_lt_of_le hc.1 s1.ext.nU
     · intro a ha
@@ -455,12 +470,75 @@ theorem disconnectUnit_wstep {w w' : World} {u : Nat} {inl outl : Option (List P
     obtain ⟨w1, h1, h⟩ := bind_ok.mp h
     obtain ⟨y, hy, h⟩ := bind_ok.mp h
     cases hy
-    have s1 : WStep (u < w.nU) w w1 := on_wstep (fun _ => setNones_step) h1
+    have s1 : WStepR (u < w.nU) w w1 := on_wstepR (fun _ => setNones_step) h1
     refine s1.trans (hjp1 _ _ h) (fun hc _ => hc.1) (fun hc hG _ => ⟨?_, ?_, ?_⟩)
     · exact Nat.lt_of_lt_of_le hc.1 s1.ext.nU
     · intro a ha
       refine Nat.lt_of_lt_of_le ?_ s1.ext.nS
       exact strm_map_bound (hc.2.1 l rfl) a ha
     · intro l hl s hs; exact Nat.lt_of_lt_of_le (hc.2.2 l hl s hs) s1.ext.nS
+
+/-! ## Ports (`InletPort`, `OutletPort`, `StreamPorts`), `_owner` -/
+
+theorem GoodS.side_loc_lt {w : World} (h : GoodS w) {k : Which} {s v : Nat}
+    (hs : (w.side k).loc s = some v) : v < w.nU := by
+  cases k
+  · exact h.ins_loc_lt hs
+  · exact h.outs_loc_lt hs
+
+theorem portFrom_wstep {w w' : World} {k : Which} {x s : Nat} (h : w.portFrom k x s = .ok w') :
+    WStepR (s < w.nS) w w' := by
+  unfold World.portFrom at h
+  split at h
+  · cases h
+  · rename_i v hv
+    exact (on_replace_wstep h).weaken (fun hc hG => ⟨hc, hG.side_loc_lt hv⟩)
+
+theorem resolvePorts_lt {w : World} {k : Which} {xs : List Nat} {ps : List (Nat × Nat)}
+    (hG : GoodS w) (h : w.resolvePorts k xs = .ok ps) : ∀ p ∈ ps, p.1 < w.nU := by
+  induction xs generalizing ps with
+  | nil => simp only [World.resolvePorts] at h; cases h; simp
+  | cons x xs ih =>
+    simp only [World.resolvePorts] at h
+    split at h
+    · cases h
+    · rename_i v hv
+      split at h
+      · cases h
+      · obtain ⟨r, hr, h⟩ := bind_ok.mp h
+        cases h
+        intro p hp
+        simp only [List.mem_cons] at hp
+        rcases hp with rfl | hp
+        · exact hG.side_loc_lt hv
+        · exact ih hr p hp
+
+theorem setPorts_wstep {w w' : World} {k : Which} {l : List ((Nat × Nat) × Nat)}
+    (h : w.setPorts k l = .ok w') : WStepR (∀ p ∈ l, p.2 < w.nS ∧ p.1.1 < w.nU) w w' := by
+  induction l generalizing w with
+  | nil => simp only [World.setPorts] at h; cases h; exact (WStepR.refl _).weaken (fun _ _ => trivial)
+  | cons p l ih =>
+    obtain ⟨⟨v, i⟩, s⟩ := p
+    simp only [World.setPorts] at h
+    obtain ⟨w1, h1, h⟩ := bind_ok.mp h
+    have s1 : WStepR (s < w.nS ∧ v < w.nU) w w1 :=
+      (on_wstepR (fun _ => setStream_step) h1).weaken (fun hc _ => ⟨by simpa using hc.1, hc.2⟩)
+    exact s1.trans (ih h) (fun hc _ => hc ((v, i), s) (by simp))
+      (fun hc _ _ q hq => ⟨Nat.lt_of_lt_of_le (hc q (by simp [hq])).1 s1.ext.nS,
+        Nat.lt_of_lt_of_le (hc q (by simp [hq])).2 s1.ext.nU⟩)
+
+theorem streamPorts_wstep {w w' : World} {k : Which} {xs ss : List Nat}
+    (h : w.streamPorts k xs ss = .ok w') : WStepR (∀ s ∈ ss, s < w.nS) w w' := by
+  unfold World.streamPorts at h
+  obtain ⟨ps, hps, h⟩ := bind_ok.mp h
+  split at h
+  · cases h
+  · refine (setPorts_wstep h).weaken (fun hc hG p hp => ?_)
+    have := List.of_mem_zip hp
+    exact ⟨hc _ this.2, resolvePorts_lt hG hps _ this.1⟩
+
+theorem setOwner_wstep (w : World) (f : Nat → Option Nat) : WStepR True w { w with owner := f } :=
+  ⟨⟨⟨id, Nat.le_refl _, Nat.le_refl _, fun _ _ => rfl⟩, fun _ hG _ =>
+    ⟨hG.ins.of_eq rfl rfl, hG.outs.of_eq rfl rfl, hG.nreal⟩⟩, rfl⟩
 
 end ThermoVerif.Network
